@@ -15,7 +15,7 @@
 From ZV Require Import Base.Bytes C26.Desc C26.Tree C26.Msg C26.Std C27.Model C28.Model C26.Model.
 From ZV Require Import C28.Spec C26.Spec C26.Facts C26.Proofs C26.StdFacts C26.Examples.
 
-(* The property as stated, kept visible; REFUTED on this tree (five classes, below). *)
+(* The property as stated, kept visible; REFUTED on this tree (four classes, below). *)
 Definition C26_full_statement : Prop :=
   forall (bh : behaviour) (root : node) (c : call) (x : expect),
     tree_respects bh root -> is_props_call root c = false ->
@@ -52,15 +52,15 @@ Theorem C26_handler_runs_iff_partial :
 Proof. exact handler_runs_iff. Qed.
 Print Assumptions C26_handler_runs_iff_partial.
 
-(* --- wrong argument types: one error reply (whatever the flags), the handler does not run, nothing changes;
-       the error NAME is org.freedesktop.zbus.Error (class invalid_args_name) --- *)
+(* --- wrong argument types: one InvalidArgs error reply (whatever the flags), the handler does not run, nothing
+       changes (fix 86474bc3; before it the error name was org.freedesktop.zbus.Error) --- *)
 Theorem C26_wrong_arguments_rejected :
   forall (bh : behaviour) (root : node) (c : call) path iface member n i md,
     c_path c = Some path -> c_iface c = Some iface -> c_member c = Some member ->
     get_child root (segs_of path) = Some n -> find_inst n iface = Some i ->
     find_method (in_desc i) member = Some md ->
     in_tys md <> [] -> types_match md (c_args c) = false -> ~ flattened md (c_args c) ->
-    dispatch bh root c = (reply_only (RErr EZBus None), root).
+    dispatch bh root c = (reply_only (RErr EInvalidArgs None), root).
 Proof. exact badargs_rejected. Qed.
 Print Assumptions C26_wrong_arguments_rejected.
 
@@ -76,12 +76,15 @@ Qed.
 Print Assumptions C26_accepted_bodies.
 
 (* --- the known classes: in each, a concrete call on which the faithful model breaks the property --- *)
-Theorem C26_invalid_args_name_refuted :
-  exists (bh : behaviour) (root : node) (c : call) (x : expect),
-    tree_respects bh root /\ class26 root c = Some InvalidArgsName /\
-    spec26 bh root c = Some x /\ ~ meets x (dispatch bh root c).
-Proof. exact invalid_args_name_refuted_full. Qed.
-Print Assumptions C26_invalid_args_name_refuted.
+(* the former class invalid_args_name (fixed by 86474bc3): its witness now meets the specification *)
+Theorem C26_invalid_args_answered :
+  let c := ex_call (B "MTwo") false [VS (B "x")] in
+  class26 ex_root c = None /\
+  exists x, spec26 ex_bh ex_root c = Some x /\ x_reply x = XErr EInvalidArgs None /\ x_log x = [] /\
+            meets x (dispatch ex_bh ex_root c) /\
+            dispatch ex_bh ex_root c = (reply_only (RErr EInvalidArgs None), ex_root).
+Proof. exact invalid_args_answered. Qed.
+Print Assumptions C26_invalid_args_answered.
 
 (* a method without declared inputs runs whatever the body holds *)
 Theorem C26_noarg_extra_args_refuted :
